@@ -41,15 +41,21 @@ def Parts.render (x : Parts) : Bytes :=
 def Parts.wf (x : Parts) : Bool :=
   x.int.all isDigit && x.fracDigits.all isDigit && decide (1 ≤ x.int.length + x.fracDigits.length)
 
-/-- split a text at an optional leading sign and at the first point (always succeeds) -/
-def decompose (txt : Bytes) : Parts :=
-  let (sg, r) : Sign × Bytes := match txt with
-    | 43 :: r => (.plus, r)
-    | 45 :: r => (.minus, r)
-    | r => (.none, r)
+/-- an optional leading sign -/
+def splitSign (txt : Bytes) : Sign × Bytes :=
+  match txt with
+  | 43 :: r => (.plus, r)
+  | 45 :: r => (.minus, r)
+  | r => (.none, r)
+
+/-- split at the first point -/
+def splitPoint (sg : Sign) (r : Bytes) : Parts :=
   match r.dropWhile (· != 46) with
   | [] => ⟨sg, r.takeWhile (· != 46), none⟩
   | _ :: f => ⟨sg, r.takeWhile (· != 46), some f⟩
+
+/-- split a text at an optional leading sign and at the first point (always succeeds) -/
+def decompose (txt : Bytes) : Parts := splitPoint (splitSign txt).1 (splitSign txt).2
 
 /-- `txt` is a decimal number -/
 def Dec (txt : Bytes) : Prop := (decompose txt).wf = true
